@@ -306,6 +306,16 @@ CHECKS += [
          technique="lifted execution of the snapshot transform and device snapshot branch on z3 circle-polynomial terms; z3 QF_NRA equality proofs"),
 ]
 
+CHECKS += [
+    dict(property_id="C39", category="proof", engine=E1,
+         text="compute_vjp_single/multi, compute_jvp_single/multi, vjp, jvp, batch_vjp (append/extend) and batch_jvp run on Jacobians, cotangents and tangents whose entries are "
+              "SYMBOLIC reals, for 7 measurement layouts (scalar / vector / mixed, up to 3 measurements) x 1-3 parameters, two-copy shot vectors and two-tape batches; the "
+              "gradient transform is an environment stub returning an arbitrary Jacobian in the documented nested layout. The zero-cotangent / zero-tangent shortcuts fork on "
+              "the symbolic entries. z3 proves every returned component equal to the explicit contraction and the result structure (entries per parameter / output / shot copy).",
+         note=PROOF_NOTE + " Outside: classical_jacobian (needs an autodiff framework), tensor-valued tape parameters, torch/jax/tensorflow code paths.",
+         technique="lifted execution of the contraction utilities on z3 real terms with solver-decided zero shortcuts; z3 QF_NRA equality proofs"),
+]
+
 _NOT_BUILT = "claimed in DESIGN.md §4 but its solver-based check is not built yet in this tree"
 NOT_APPLICABLE_REASONS = {
     "C04": "equality/hash: Python hash() of concrete payloads and tolerance-based allclose relations; no exact relation a solver can decide",
